@@ -236,6 +236,13 @@ pub fn shape_flags(b: &Built) -> String {
     if ie {
         flags.push("IE".to_string());
     }
+    // an explicit import node named with an interface path other than the id of the interface it imports
+    if b.graph.node_ids().any(|n| match (b.graph[n].kind(), b.graph[n].item_kind()) {
+        (NodeKind::Import(name), wac_types::ItemKind::Instance(id)) => name.contains('/') && b.graph.types()[id].id.as_deref().map(|i| i != name.as_str()).unwrap_or(false),
+        _ => false,
+    }) {
+        flags.push("EXN".to_string());
+    }
     // an exported node that is a function taken out of an interface instance (alias of an alias)
     if b.graph.node_ids().any(|n| {
         b.graph[n].export_name().is_some()
